@@ -38,6 +38,9 @@ func (Quiet) Info(a ...any) {
 	}
 }
 func (Quiet) Infof(t string, a ...any) {
+	if InfoHook != nil {
+		InfoHook(fmt.Sprintf(t, a...))
+	}
 	if debugLog {
 		fmt.Fprintf(os.Stderr, "[info] "+t+"\n", a...)
 	}
@@ -50,6 +53,9 @@ func (Quiet) Warn(...any)          {}
 func (Quiet) Warnf(string, ...any) {}
 
 var _ logging.Logger = Quiet{}
+
+// InfoHook, when set, sees every Info-level message of the code under test (diagnosis only).
+var InfoHook func(string)
 
 // HSVERIF_LOG=1 prints the Info-level messages of the code under test (diagnosis only)
 var debugLog = os.Getenv("HSVERIF_LOG") != ""
